@@ -178,13 +178,10 @@ where
         C: PoolableConnection<B>,
     {
         let mut inner = self.inner.lock();
-        let (tx, rx) = tokio::sync::oneshot::channel();
-        let mut connector: Option<Connector<T, P, B>> = Some(connector);
         let token = self.keys.lock().insert(key);
 
         if let Some(mut connection) = inner.pop(token) {
             trace!("connection found in pool");
-            connector = None;
 
             // A connection which can be shared stays available in the pool while this
             // checkout holds its own handle, so that checkouts created before this one
@@ -193,54 +190,30 @@ where
                 inner.push(token, shared, self.as_ref());
             }
 
+            // Nothing is delivered to a checkout which already holds a connection.
+            let (_, rx) = tokio::sync::oneshot::channel();
             return Checkout::new(
                 token,
                 self.as_ref(),
-                rx,
-                connector,
+                Interest::Connect(rx, false),
+                None,
                 Some(connection),
-                false,
+                multiplex,
                 &inner.config,
             );
         }
 
         trace!("checkout interested in pooled connections");
-        let connecting = inner.connecting.contains(&token);
-        inner
-            .waiting
-            .entry(token)
-            .or_default()
-            .push_back(Waiter { tx, connecting });
-
-        if connecting {
-            trace!("connection in progress elsewhere, will wait");
-            connector = None;
-            Checkout::new(
-                token,
-                self.as_ref(),
-                rx,
-                connector,
-                None,
-                false,
-                &inner.config,
-            )
-        } else {
-            if multiplex {
-                // Only block new connection attempts if we can multiplex on this one.
-                trace!("checkout of multiplexed connection, other connections should wait");
-                inner.connecting.insert(token);
-            }
-            trace!("connecting to host");
-            Checkout::new(
-                token,
-                self.as_ref(),
-                rx,
-                connector,
-                None,
-                multiplex,
-                &inner.config,
-            )
-        }
+        let interest = inner.register_interest(token, multiplex);
+        Checkout::new(
+            token,
+            self.as_ref(),
+            interest,
+            Some(connector),
+            None,
+            multiplex,
+            &inner.config,
+        )
     }
 }
 
@@ -344,6 +317,20 @@ where
     connecting: bool,
 }
 
+/// What a checkout should do after telling the pool it wants a connection.
+pub(in crate::client) enum Interest<C, B>
+where
+    C: PoolableConnection<B>,
+    B: Send + 'static,
+{
+    /// A connection attempt which can be shared is in flight: wait for it.
+    Wait(tokio::sync::oneshot::Receiver<Pooled<C, B>>),
+
+    /// Connect, and take whatever the pool delivers in the meantime. The flag is set when
+    /// this checkout's attempt was marked as the in-flight attempt others wait for.
+    Connect(tokio::sync::oneshot::Receiver<Pooled<C, B>>, bool),
+}
+
 #[derive(Debug)]
 pub(in crate::client) struct PoolInner<C, B>
 where
@@ -372,6 +359,34 @@ where
         }
     }
 
+    /// Queue a checkout for connections delivered by the pool, and decide whether it should
+    /// wait for an in-flight attempt or start its own.
+    pub(in crate::client) fn register_interest(
+        &mut self,
+        token: Token,
+        multiplex: bool,
+    ) -> Interest<C, B> {
+        let (tx, rx) = tokio::sync::oneshot::channel();
+        let connecting = self.connecting.contains(&token);
+        self.waiting
+            .entry(token)
+            .or_default()
+            .push_back(Waiter { tx, connecting });
+
+        if connecting {
+            trace!("connection in progress elsewhere, will wait");
+            Interest::Wait(rx)
+        } else {
+            if multiplex {
+                // Only block new connection attempts if we can multiplex on this one.
+                trace!("checkout of multiplexed connection, other connections should wait");
+                self.connecting.insert(token);
+            }
+            trace!("connecting to host");
+            Interest::Connect(rx, multiplex)
+        }
+    }
+
     /// The in-flight connection attempt for this token is over.
     ///
     /// Only the checkout which owns the attempt may call this, once it has either registered
@@ -381,7 +396,7 @@ where
         if existed {
             trace!("pending connection cancelled");
             // Checkouts which are still waiting on this attempt will never be served by it;
-            // dropping their senders lets them resolve instead of waiting forever.
+            // dropping their senders makes them ask the pool again instead of waiting forever.
             if let Some(waiters) = self.waiting.get_mut(&token) {
                 waiters.retain(|waiter| !waiter.connecting);
             }
